@@ -244,8 +244,13 @@ func VerifMemStaleHandles() {
 	}
 	all := []int{vhRead, vhReadAt, vhWrite, vhWriteAt, vhSeek, vhSize}
 	second := []int{vhRead, vhSize}
-	hh.probe(handles[verif.Choice("handle", 2)], all)
-	hh.probe(handles[verif.Choice("handle", 2)], second)
+	first := verif.Choice("handle", 2)
+	hh.probe(handles[first], all)
+	next := first
+	if verif.Bound("second-probe-any-handle", 0, 1) == 1 {
+		next = verif.Choice("handle", 2)
+	}
+	hh.probe(handles[next], second)
 	hh.check()
 	hh.checkContents()
 }
